@@ -128,8 +128,8 @@ func main() {
 func readAndPublish(r *bufio.Reader, delim byte, producers map[string]*nsq.Producer) error {
 	line, readErr := r.ReadBytes(delim)
 
-	if len(line) > 0 {
-		// trim the delimiter
+	if len(line) > 0 && line[len(line)-1] == delim {
+		// trim the delimiter (absent on a final, unterminated record)
 		line = line[:len(line)-1]
 	}
 
